@@ -884,3 +884,26 @@ def check_one_laminate_matrix(chk, rule):
                detail='' if ok else 'with force_orthotropic_laminate (or the shear correction) the numeric kernels get the edited copy while fk0 keeps the unedited laminate: kT(0) != K0 and fint does not reduce to K0.c',
                sample='_get_lam_F: F = %s (alias), %d in-place edits, %d analytic readers of panel.lam.ABD' % (norm(d.value), len(stores), len(readers)))
     chk.floor(rule + ' analytic kernels reading panel.lam.ABD', len(readers), 6)
+
+
+class TextAlt(str):
+    """text of a bound argument that also compares equal to its form with single-definition locals substituted
+    (`col0` where `col0 = p.col_start` is equal to both 'col0' and 'p.col_start')"""
+    def __new__(cls, plain, resolved):
+        o = str.__new__(cls, plain)
+        o.alt = resolved
+        return o
+
+    def __eq__(self, other):
+        return str.__eq__(self, other) or (isinstance(other, str) and self.alt == str(other))
+
+    def __ne__(self, other):
+        return not self.__eq__(other)
+
+    def __hash__(self):
+        return str.__hash__(self)
+
+
+def bound_texts(fn, mp):
+    defs = local_defs(fn)
+    return {p_: TextAlt(norm(a), resolve(fn, a, defs)) for p_, a in mp.items()}
